@@ -20,7 +20,8 @@ _counter = itertools.count()
 INT_COMBOS = [(1, False, False), (2, True, False), (2, True, True), (2, False, False), (2, False, True),
               (4, True, False), (4, True, True), (4, False, False), (4, False, True),
               (8, True, False), (8, True, True), (8, False, False), (8, False, True)]
-PY_STRIP = '\t\n\x0b\x0c\r\x1c\x1d\x1e\x1f \x85\xa0'        # str.isspace() below 256
+PY_STRIP = '\t\n\x0b\x0c\r\x1c\x1d\x1e\x1f \x85\xa0'        # str.isspace() below 256 (what a bare strip() would remove)
+PAD = ' '                                                     # the pad character: cannot survive at the ends of a fixed field
 
 
 def sx(x):
@@ -257,14 +258,14 @@ def in_domain(ty, v, as_elem=False):
             return len(cs) == 1
         if k == 'str':
             return len(cs) <= 32767
-        return len(cs) <= ty[2] and (not cs or (chr(cs[0]) not in PY_STRIP and chr(cs[-1]) not in PY_STRIP))
+        return len(cs) <= ty[2] and (not cs or (chr(cs[0]) != PAD and chr(cs[-1]) != PAD))
     if k in ('record', 'optrec'):
         if k == 'optrec' and not as_elem and (v == 'none' or v == ['r']):
             return True
         if v == 'none' or v[0] != 'r':
             return False
         fs = fields_of(ty)
-        if not fs or len({n for n, _, _ in fs}) != len(fs):
+        if len({n for n, _, _ in fs}) != len(fs) or (k == 'optrec' and not as_elem and not fs):
             return False
         st = {n: x for n, x in v[1:]}
         return all(in_domain(fty, effective(st, n, fty, d)) for n, fty, d in fs)
@@ -340,10 +341,10 @@ def gen_text(rng, iso, n, edge_clean=False):
         alphabet = [c for c in (0, 1, 9, 10, 13, 0x1c, 0x1f, 0x20, 0x7f, 0x80, 0x85, 0xa0, 0xe9, 0xff, 0x41) if c < limit]
     cs = [rng.choice(alphabet) for _ in range(n)]
     if edge_clean:
-        ok = [c for c in alphabet if chr(c) not in PY_STRIP] or [0x41]
-        if cs and chr(cs[0]) in PY_STRIP:
+        ok = [c for c in alphabet if chr(c) != PAD] or [0x41]
+        if cs and chr(cs[0]) == PAD:
             cs[0] = rng.choice(ok)
-        if cs and chr(cs[-1]) in PY_STRIP:
+        if cs and chr(cs[-1]) == PAD:
             cs[-1] = rng.choice(ok)
     return cs
 
@@ -395,6 +396,8 @@ def gen_ty(rng, depth, width, names=None):
 
 def gen_record_ty(rng, k, depth, width):
     n = rng.randint(1, max(1, width))
+    if k == 'record' and rng.random() < 0.03:
+        n = 0                                # a record / message body without fields
     names = rng.sample(range(1, 40), n)
     fs = []
     for name in names:
@@ -432,7 +435,7 @@ def gen_val(rng, ty, size_hint=4, as_elem=False):
             p = 0.95 if kind(fty) in ('record', 'optrec') else 0.75
             if rng.random() < p:
                 out.append([n, gen_val(rng, fty, size_hint)])
-        if k == 'optrec' and len(out) == 1 and not as_elem:
+        if k == 'optrec' and len(out) == 1 and not as_elem and fields_of(ty):
             n, fty, _d = fields_of(ty)[0]
             out.append([n, gen_val(rng, fty, size_hint)])
         return out
